@@ -121,6 +121,7 @@ type Exec struct {
 	depthMax int
 	usedContracts map[string]bool
 	inlined  map[string]bool
+	inlinedFns map[*ssa.Function]bool
 	n2       int
 	ghostBoxes []*Term
 	collect  *[]clauseInst
